@@ -5,6 +5,17 @@ NOTES = ('Runtime monitoring only: every verdict is an oracle observing executio
          'explored, 1 = VIOLATION, 2 = INCONCLUSIVE (deciding monitor not reached).  Known findings: known_findings.json.')
 ENGINE_KIND = {
     'decl': 'history + executable must/may reference model, every live object compared after every step',
+    'algebra': 'law checker over generated declaration operands',
+    'specgraph': 'history monitor: reachability oracle, fresh-twin differential, two independent C3 oracles',
+    'attrs': 'accessor-agreement monitor after every rebasing',
+    'registry': 'history + reference model / ledger monitors, warm-vs-cold replay differential, ro invariant at quiescent points',
+    'order': 'law checker + cross-process determinism',
+    'pickling': 'round-trip monitor incl. second process and opcode inspection',
+    'adapt': 'trace-specification monitor over recorded call logs (exhaustive case product)',
+    'components': 'history + ledger model + event recorder + fresh-registry differential',
+    'signature': 'exhaustive-grid runtime oracle (inspect.signature)',
+    'diff': 'differential trace monitor py vs C in separate processes, sanitizer legs',
+    'reent': 'callback-point fault injection, cache-ownership audit, answer oracle, leak meters, thread stress, valgrind/ASan',
 }
 META = {
     'C01': dict(
@@ -22,3 +33,45 @@ META = {
              'after declaration changes (warm per-class proxy cache); adaptation through a real AdapterRegistry with recording factories.',
         note='Trusted: C01 reference model; adapter choice read from the validated proxy specification order.'),
 }
+
+
+def _m(technique, design_ref, text, note):
+    return dict(technique=technique, design_ref=design_ref, text=text, note=note)
+
+
+META.update({
+    'C02': _m('runtime monitoring: rebasing histories vs DFS reachability oracle over current __bases__ + fresh-twin graph differential, py and C, strict and non-strict',
+              '3.2', 'Held on the recorded executions: every ordered pair of live specifications (interfaces, plain/class/instance declarations) is '
+              'compared with reachability after every mutation; every __sro__ is compared element-wise with a freshly built twin graph.',
+              'Trusted: DFS over __bases__; generated graphs are acyclic.'),
+    'C03': _m('runtime monitoring: resolution orders of generated DAGs vs two independent C3 oracles (own merge, CPython type.mro() of a mirrored class graph), five ro configurations',
+              '3.3', 'Held on the recorded executions: validity of every order, equality with C3 when it exists, strict / is_consistent verdicts, '
+              'for consistent and inconsistent hierarchies and after rebasing, in default/strict/legacy/warn/track configurations.',
+              'Trusted: CPython implements C3; the two oracles must agree or the node is not judged.  Known finding strict_transient_raise is reported, not hidden.'),
+    'C04': _m('runtime monitoring: recorded lookups vs lexicographic-position reference model over real __sro__',
+              '3.4', 'Held on the recorded executions: tens of thousands of lookups on populated registry chains of both flavours, biased to ties.',
+              'Trusted: the 40-line model; __sro__ as validated by C02/C03.'),
+    'C05': _m('runtime monitoring: warm registry vs cold replay of the full mutation log at every step, all entry points x all mutation kinds, cache hits confirmed by counting uncached computations',
+              '3.5', 'Held on the recorded executions: literal reading of the statement - a registry that never looked anything up is built by replay and asked the same questions.',
+              'Trusted: replaying the mutation log reproduces the mutation state; model second opinion for plain lookups.'),
+    'C06': _m('runtime monitoring: invariant at quiescent points (registry.ro == C3 of current __bases__) + behavioural probes from every chain member vs reference model',
+              '3.6', 'Held on the recorded executions: registry DAGs of both flavours and Components chains, re-based at any level, probed from every member.',
+              'Trusted: own C3 over the registry graph; C04/C07 models.'),
+    'C07': _m('runtime monitoring: subscribe/unsubscribe histories vs ledger (multiset by identity) + pairwise order rules',
+              '3.7', 'Held on the recorded executions.', 'Order is only constrained where the statement constrains it (comparable keys).'),
+    'C08': _m('runtime monitoring: cross-entry-point agreement under varied cache warm-up, recording factories',
+              '3.8', 'Held on the recorded executions: nine entry points per key in seeded orders (cold / warm-by-self / warm-by-other).',
+              'The registry\'s own lookup()/subscriptions() are the reference; they are decided by C04/C07.'),
+    'C09': _m('runtime monitoring: bookkeeping ledger after every step + replayed-twin and rebuild() differentials',
+              '3.9', 'Held on the recorded executions.', 'Differentials only on unambiguous probes (unique minimal candidate).'),
+    'C12': _m('runtime monitoring: comparison/hash laws on generated operand pools + cross-process (py/C x hash seeds) determinism of sorted()',
+              '3.12', 'Held on the recorded executions: all ordered pairs x 6 operators, sampled triples, sorted collections compared across 4-12 processes.',
+              'Trusted: tuple comparison of (__name__, __module__).'),
+    'C13': _m('runtime monitoring: pickle round trips of generated importable modules, protocols 0-5, second process, opcode/sentinel inspection',
+              '3.13', 'Held on the recorded executions.', 'Trusted: pickle/pickletools.'),
+    'C15': _m('runtime monitoring: accessor agreement vs first-definition-along-__iro__ from the harness\'s own record, cold/warm/after rebasing',
+              '3.15', 'Held on the recorded executions.', '__iro__ itself is decided by C02/C03.'),
+    'C20': _m('runtime monitoring: declaration algebra laws vs list algebra over DFS reachability',
+              '3.20', 'Held on the recorded executions: all ordered pairs of generated declarations per world.',
+              'A+B: placement of a new element that extends only an earlier new element is not constrained.'),
+})
